@@ -62,7 +62,7 @@ CUSTOM_ORIGIN = [3.0, -2.0, 5.5]
 BYTE_SHAPES = {"quick": [(1, 1), (2, 3), (5, 4)], "thorough": [(1, 1), (2, 3), (5, 4), (1, 7), (7, 1), (3, 3), (16, 16)]}
 OPT_SHAPES = {"quick": [(1, 1), (2, 3), (5, 4)], "thorough": [(1, 1), (2, 3), (5, 4), (16, 9)]}
 TYPE_NAMES = ["bool", "float", "float32", "float64", "int", "uint8", "uint16"]
-CURV_CONFIGS = ["empty", "init", "crop", "bulge", "stretch", "crop+stretch", "all"]
+CURV_CONFIGS = ["empty", "init", "crop", "bulge", "stretch", "crop+stretch", "all", "crop-voxels", "crop-voxels+stretch"]
 CURV_KW = ["default", "order0", "order3", "resize"]
 ILLUM_SPACES = ["rgb", "rgb-scalar", "lab", "lab-scalar", "hsl", "hsl-scalar", "gray"]
 
@@ -671,8 +671,11 @@ def build_correction(case):
             "bulge": {"horizontal_bulge": -0.0, "horizontal_center_offset": 0, "vertical_bulge": -2e-6, "vertical_center_offset": -3},
             "stretch": {"horizontal_stretch": -1e-6, "horizontal_center_offset": -5, "vertical_stretch": 7e-7, "vertical_center_offset": 4},
         }
+        # "crop-voxels": the same quadrilateral marked with typed voxels (row, col) instead of a plain
+        # list of (col, row) pixels
+        full["crop-voxels"] = dict(full["crop"], pts_src=darsia.make_voxel([[2, 3], [95, 4], [96, 140], [3, 141]]))
         keys = {"empty": [], "all": ["init", "crop", "bulge", "stretch"]}.get(case["config"], case["config"].split("+"))
-        config = {k: copy.deepcopy(full[k]) for k in keys}
+        config = {("crop" if k == "crop-voxels" else k): copy.deepcopy(full[k]) for k in keys}
         if case["use_cache"]:
             config["use_cache"] = True
             config["cache"] = _fresh("curvature-cache.npy")
